@@ -164,6 +164,10 @@ type RunOpts struct {
 	// (as a closed pipe or a full disk does) after PriorOutFail-1 bytes during that earlier call;
 	// the writer is healthy again for the call that is measured.
 	PriorOutFail int
+	// ToolMoves: 1 - the tools' copies in /usr/bin are gone (others in /usr/local/bin are on PATH) for
+	// the whole run; 2 - they disappear after the earlier call(s) of a shared Linter, before the
+	// measured one (an upgrade while an editor integration keeps running)
+	ToolMoves int
 	// After, when set, runs inside the simulation after the lint returned.
 	After func()
 }
@@ -209,6 +213,7 @@ func RunLint(w *World, c *Chooser, o RunOpts) *LintResult {
 	simrt.ResetChannels()
 	if t, ok := w.Tools.(*Tools); ok && t != nil {
 		t.busySeen = false
+		t.gone = o.ToolMoves == 1
 	}
 	res.K = kern.Run(cfg, func() {
 		var shared *sharedLinter
@@ -235,6 +240,9 @@ func RunLint(w *World, c *Chooser, o RunOpts) *LintResult {
 		}
 		if shared != nil {
 			shared.failOut = 0
+		}
+		if t, ok := w.Tools.(*Tools); ok && t != nil && o.ToolMoves == 2 {
+			t.gone = true
 		}
 		for i := 0; i < rep; i++ {
 			lintOnce(w, res, shared)
